@@ -113,3 +113,130 @@ pub fn generous_horizon(cfgs: &[&CfgSpec]) -> u64 {
     }
     h
 }
+
+// ------------------------------------------------------------------------------------------------
+// generic scenario strategies
+
+use proptest::prelude::*;
+
+pub fn cfg_strategy() -> impl Strategy<Value = CfgSpec> {
+    (
+        proptest::sample::select(vec![16u16, 24, 32, 64, 1024]),
+        1u32..=4,
+        (1i64..=5, 1i64..=5, 1i64..=5),
+        any::<bool>(),
+        any::<bool>(),
+        any::<bool>(),
+        proptest::sample::select(nak_variants()),
+    )
+        .prop_map(|(seg, max_count, (ti, ta, tn), crc, closure, null_checksum, nak)| CfgSpec {
+            seg,
+            max_count,
+            ti,
+            ta,
+            tn,
+            crc,
+            closure,
+            null_checksum,
+            nak,
+            handlers: vec![],
+        })
+}
+
+/// file sizes around segment boundaries, up to 12 segments
+pub fn size_for(seg: u16, pick: u8) -> u32 {
+    let s = seg as u32;
+    let table = [
+        0,
+        1,
+        s - 1,
+        s,
+        s + 1,
+        2 * s,
+        3 * s - 1,
+        3 * s + 1,
+        4 * s,
+        5 * s + 3,
+        8 * s,
+        12 * s,
+    ];
+    table[pick as usize % table.len()]
+}
+
+pub fn class_strategy(seg: u16) -> impl Strategy<Value = ContentClass> {
+    prop_oneof![
+        3 => Just(ContentClass::Random),
+        1 => Just(ContentClass::Zero),
+        2 => Just(ContentClass::ZeroRuns { seg }),
+        3 => Just(ContentClass::Neutral),
+        1 => (1u32..200).prop_map(|n| ContentClass::ZeroTail { n }),
+    ]
+}
+
+pub fn fault_strategy(max_ord: u32, allow_corrupt: bool) -> impl Strategy<Value = Fault> {
+    let kind = prop_oneof![
+        5 => Just(FaultKind::Drop),
+        2 => (0u64..60).prop_map(|extra_ms| FaultKind::Dup { extra_ms }),
+        2 => (1u64..40).prop_map(|ms| FaultKind::Delay { ms }),
+        2 => any::<u16>().prop_map(|frac| FaultKind::Corrupt { frac }),
+    ];
+    // most exchanges are short: favour low ordinals (and the reverse direction has only a few datagrams)
+    let ordinal = prop_oneof![4 => 0u32..5, 3 => 0u32..10, 1 => 0..max_ord];
+    (any::<bool>(), ordinal, kind).prop_map(move |(dir, ordinal, kind)| {
+        let kind = match kind {
+            FaultKind::Corrupt { .. } if !allow_corrupt => FaultKind::Drop,
+            k => k,
+        };
+        let (from, to) = if dir { (0, 1) } else { (1, 0) };
+        Fault { from, to, ordinal, kind }
+    })
+}
+
+#[derive(Clone, Copy, Debug, PartialEq)]
+pub enum Modes {
+    Both,
+    AckOnly,
+    UnackOnly,
+}
+
+/// one put from entity 0 to entity 1 under a random configuration and fault script
+pub fn scenario_strategy(modes: Modes, max_faults: usize) -> impl Strategy<Value = Scenario> {
+    (cfg_strategy(), proptest::sample::select(nak_variants()), any::<u8>(), any::<u64>(), any::<bool>())
+        .prop_flat_map(move |(cfg, rnak, pick, seed, unack)| {
+            let seg = cfg.seg;
+            let crc = cfg.crc;
+            (
+                Just(cfg),
+                Just(rnak),
+                Just(pick),
+                Just(seed),
+                Just(unack),
+                class_strategy(seg),
+                proptest::collection::vec(fault_strategy(30, crc), 0..=max_faults),
+                proptest::sample::select(vec![0u64, 1, 1, 1, 10]),
+                0u64..6,
+                (proptest::sample::select(vec![1u8, 2, 4, 8]), proptest::sample::select(vec![1u8, 2, 4, 8])),
+            )
+        })
+        .prop_map(move |(cfg, rnak, pick, seed, unack, class, faults, tau, lat, (idw, seqw))| {
+            let mut rcfg = cfg.clone();
+            rcfg.nak = rnak;
+            let mut sc = Scenario::two_entities(cfg.clone(), rcfg.clone());
+            sc.seed = seed;
+            sc.tau_ms = tau;
+            sc.lat_ms = lat;
+            for e in sc.entities.iter_mut() {
+                e.id_width = idw;
+                e.seq_width = seqw;
+            }
+            let unack = match modes {
+                Modes::Both => unack,
+                Modes::AckOnly => false,
+                Modes::UnackOnly => true,
+            };
+            sc.puts.push(simple_put(size_for(cfg.seg, pick), class, seed ^ 0xABCD, unack));
+            sc.faults = faults;
+            sc.horizon_ms = generous_horizon(&[&cfg, &rcfg]);
+            sc
+        })
+}
